@@ -1,5 +1,6 @@
 import PytezosModel.Proofs.C19Pair
 import PytezosModel.Proofs.C19Values
+import PytezosModel.Proofs.C19Grammar
 /-! C19 — macro expansions have their specified Michelson meaning.
 
 `Impl.Macros.expandMacro` mirrors `expand_macro` of `src/pytezos/michelson/macros.py` (regex table, `prim_tags`,
@@ -9,7 +10,7 @@ passed to a macro is arbitrary).  `Spec.*` are the definitions of the Michelson 
 expansion the mirror produces, for all stacks (equality of stack transformers), all annotations the code accepts, and
 all names of the family. -/
 namespace C19
-open Impl.Macros Generated.C19 Spec Sem C19.Dispatch C19.Expand C19.Pair C19.Values
+open Impl.Macros Generated.C19 Spec Sem C19.Dispatch C19.Expand C19.Pair C19.Values C19.Grammar
 
 /-! ### comparison, conditional and assertion macros -/
 
@@ -322,9 +323,364 @@ theorem map_car_sees (c : F) (a b : Val) (S : Stack) :
 theorem map_cdr_sees (c : F) (a b : Val) (S : Stack) :
     Spec.mapCxr [.D] c (.pair a b :: S) = (c (b :: .pair a b :: S)).bind (swapStep ⨾ carStep ⨾ pairStep) := by
   simp only [mapCxr, seqF, dupStep, cdrStep, bind_ok, bind_assoc]
+  congr 1
+  funext T
+  show _ = ((swapStep T).bind carStep).bind pairStep
+  rw [bind_assoc]
 
 example : Spec.mapCxr [.A, .D] (fun S => match S with | x :: T => .ok (.some x :: T) | [] => .err)
     [.pair (.pair (.atom "x") (.atom "y")) (.atom "z"), .atom "s"] =
     .ok [.pair (.pair (.atom "x") (.some (.atom "y"))) (.atom "z"), .atom "s"] := by decide
+
+
+/-! ### `P…R` / `UNP…R` trees -/
+
+theorem runHandler_pxr (recur : Recur) (g : List Char) (an : List String) :
+    runHandler recur "expand_pxr" g an [] =
+      (buildPxrTree g (fieldAnnots an)).bind fun t => .ok (.seq (pxrWalk (pairProduce an) t).reverse) := by
+  show (do let res ← traversePxr g (fieldAnnots an) (pairProduce an); pure (Mich.seq res) : M Mich) = _
+  unfold traversePxr
+  cases buildPxrTree g (fieldAnnots an) <;> rfl
+
+theorem runHandler_unpxr (recur : Recur) (g : List Char) (an : List String) :
+    runHandler recur "expand_unpxr" g an [] =
+      (buildPxrTree g an).bind fun t => .ok (.seq (pxrWalk unpairProduce t).reverse.reverse) := by
+  show (do let res ← traversePxr g an unpairProduce; pure (Mich.seq res.reverse) : M Mich) = _
+  unfold traversePxr
+  cases buildPxrTree g an <;> rfl
+
+/-- for EVERY tree with at least three leaves (`PAIR` itself is an instruction): the expansion of the `P…R` name of the
+tree computes the reference meaning `P(left)(right)R > (left)R ; DIP ((right)R) ; PAIR` — on all stacks, with any
+annotations.  This is where the DIP-depth / `insert(0, …)` scheme of `traverse_pxr_tree` is justified (`Kp_eq`). -/
+theorem pair_tree (l r : PairTree) (h3 : 3 ≤ (PairTree.node l r).leaves) (an : List String) (ext : Ext) :
+    ∃ m, expandMacro (pairName (.node l r)) an [] = .ok m ∧ eval ext m = Spec.build (.node l r) := by
+  refine ⟨.seq (pxrWalk (pairProduce an) (pxrOf (.node l r) 'A' (fieldAnnots an) 0 true).1).reverse, ?_, ?_⟩
+  · rw [expandMacro, expand_step _ _ _ _ _ _ _ (dispatch_pair l r h3) H13.2, H13.1, runHandler_pxr,
+      buildPxrTree_node]
+    rfl
+  · rw [eval_seq, walk_pair, Kp_eq, Up, under_zero]
+
+/-- value reading of `P…R`: the leaves are taken from the top of the stack, left to right, and replaced by the nested
+pair; a stack with fewer elements than leaves is an error -/
+theorem pair_tree_value (l r : PairTree) (S : Stack) :
+    Spec.build (.node l r) S = match treeVal? (.node l r) S with
+      | some (v, S') => .ok (v :: S')
+      | none => .err := by
+  rw [build_value (.node l r) S (by intro h; cases h)]
+  cases treeVal? (.node l r) S with
+  | none => rfl
+  | some x => rfl
+
+/-- the same for `UNP…R`: `UNP(left)(right)R > UNPAIR ; DIP (UN(right)R) ; UN(left)R` -/
+theorem unpair_tree (l r : PairTree) (h3 : 3 ≤ (PairTree.node l r).leaves) (an : List String) (ext : Ext) :
+    ∃ m, expandMacro (unpairName (.node l r)) an [] = .ok m ∧ eval ext m = Spec.unbuild (.node l r) := by
+  refine ⟨.seq (pxrWalk unpairProduce (pxrOf (.node l r) 'A' an 0 true).1).reverse.reverse, ?_, ?_⟩
+  · rw [expandMacro, expand_step _ _ _ _ _ _ _ (dispatch_unpair l r h3) H14.2, H14.1, runHandler_unpxr,
+      buildPxrTree_node]
+    rfl
+  · rw [eval_seq, List.reverse_reverse, walk_unpair, Ku_eq, Uu, under_zero]
+
+/-- value reading of `UNP…R`: the top element must be a nested pair of that shape and is replaced by its leaves -/
+theorem unpair_tree_value (l r : PairTree) (S : Stack) :
+    Spec.unbuild (.node l r) S = match S with
+      | v :: S' => (match flatten? (.node l r) v with
+        | some ls => .ok (ls ++ S')
+        | none => .err)
+      | [] => .err := by
+  cases S with
+  | nil => rfl
+  | cons v S' => cases h : flatten? (.node l r) v <;> simp [unbuild_value, pushList, h]
+
+/-- each `UNP…R` undoes the matching `P…R`: running the expansion of `UNP…R` after the expansion of `P…R` restores the
+stack, for every tree and every stack on which `P…R` succeeds -/
+theorem unpair_undoes_pair (l r : PairTree) (h3 : 3 ≤ (PairTree.node l r).leaves) (an an' : List String) (ext : Ext) :
+    ∃ mp mu, expandMacro (pairName (.node l r)) an [] = .ok mp ∧
+      expandMacro (unpairName (.node l r)) an' [] = .ok mu ∧
+      ∀ S S' : Stack, eval ext mp S = .ok S' → eval ext mu S' = .ok S := by
+  obtain ⟨mp, hp, hep⟩ := pair_tree l r h3 an ext
+  obtain ⟨mu, hu, heu⟩ := unpair_tree l r h3 an' ext
+  refine ⟨mp, mu, hp, hu, ?_⟩
+  intro S S' h
+  rw [hep, pair_tree_value] at h
+  rw [heu]
+  cases ht : treeVal? (.node l r) S with
+  | none => rw [ht] at h; cases h
+  | some x =>
+    obtain ⟨v, S1⟩ := x
+    rw [ht] at h
+    simp only [Result.ok.injEq] at h
+    subst h
+    obtain ⟨ls, hf, hls⟩ := flatten_treeVal _ _ _ _ ht
+    rw [unpair_tree_value]
+    simp only [hf, hls]
+
+example : expandMacro (pairName (.node .leaf (.node (.node .leaf .leaf) .leaf))) [] [] =
+    .ok (.seq [.prim "DIP" [.seq [.prim "PAIR" [] []]] [], .prim "DIP" [.seq [.prim "PAIR" [] []]] [],
+      .prim "PAIR" [] []]) := by rfl        -- PAPPAIIR
+example : Spec.build (.node .leaf (.node (.node .leaf .leaf) .leaf)) [.atom "a", .atom "b", .atom "c", .atom "d", .atom "s"] =
+    .ok [.pair (.atom "a") (.pair (.pair (.atom "b") (.atom "c")) (.atom "d")), .atom "s"] := by decide
+example : Spec.unbuild (.node .leaf (.node (.node .leaf .leaf) .leaf))
+    [.pair (.atom "a") (.pair (.pair (.atom "b") (.atom "c")) (.atom "d")), .atom "s"] =
+    .ok [.atom "a", .atom "b", .atom "c", .atom "d", .atom "s"] := by decide
+/-- an ill-formed tree name is an error, not a silent `PAIR` -/
+example : expandMacro "PAAIR".toList [] [] = .error .assertion := by rfl
+example : expandMacro "PAIAIR".toList [] [] = .error .assertion := by rfl
+example : expandMacro "PPPPR".toList [] [] = .error .assertion := by rfl
+
+
+/-! ### the name grammar -/
+
+theorem pxr_run_inv (recur : Recur) (g : List Char) (an : List String) (args : List Mich) (res : Mich)
+    (h : runHandler recur "expand_pxr" g an args = .ok res) : ∃ px, buildPxrTree g (fieldAnnots an) = .ok px := by
+  cases args with
+  | cons a as => exact absurd h (by show Except.error Err.assertion ≠ _; simp)
+  | nil =>
+    rw [runHandler_pxr] at h
+    cases hb : buildPxrTree g (fieldAnnots an) with
+    | ok px => exact ⟨px, rfl⟩
+    | error e => rw [hb] at h; cases h
+
+theorem unpxr_run_inv (recur : Recur) (g : List Char) (an : List String) (args : List Mich) (res : Mich)
+    (h : runHandler recur "expand_unpxr" g an args = .ok res) : ∃ px, buildPxrTree g an = .ok px := by
+  cases args with
+  | cons a as => exact absurd h (by show Except.error Err.assertion ≠ _; simp)
+  | nil =>
+    rw [runHandler_unpxr] at h
+    cases hb : buildPxrTree g an with
+    | ok px => exact ⟨px, rfl⟩
+    | error e => rw [hb] at h; cases h
+
+/-- a successful `expand` of a non-primitive went through a table entry whose regex matched and whose handler
+succeeded -/
+theorem expand_ok_inv (fuel : Nat) (s : List Char) (an : List String) (args : List Mich) (internal : Bool) (m : Mich)
+    (ht : tags.contains s = false) (h : expand (fuel + 1) s an args internal = .ok m) :
+    ∃ hd g res, dispatch handlers s = .ok (some (hd, g)) ∧
+      runHandler (fun p a r => expand fuel p a r true) hd.func g an args = .ok res := by
+  have hc : coreOk = true := rfl
+  rw [expand, primTags_eq] at h
+  simp only [hc, ht, Bool.not_true, Bool.false_eq_true, if_false, bind, Except.bind] at h
+  cases hd : dispatch handlers s with
+  | error e => rw [hd] at h; cases h
+  | ok o =>
+    rw [hd] at h
+    cases o with
+    | none => cases h
+    | some x =>
+      obtain ⟨hh, g⟩ := x
+      simp only at h
+      split at h
+      · cases h
+      · cases hr : runHandler (fun p a r => expand fuel p a r true) hh.func g an args with
+        | error e => rw [hr] at h; cases h
+        | ok res => exact ⟨hh, g, res, rfl, hr⟩
+
+theorem macroName_of_accepts (s : List Char) (hnl : '\n' ∉ s) (ht : tags.contains s = false) (args : List Mich)
+    (m : Mich) (h : expandMacro s [] args = .ok m) : MacroName s := by
+  obtain ⟨hd, g, res, hdisp, hrun⟩ := expand_ok_inv _ _ _ _ _ _ ht h
+  obtain ⟨p, hmem, hp, hf⟩ := dispatch_inv _ _ _ _ hdisp
+  simp only [handlers, List.mem_cons, List.not_mem_nil, or_false] at hmem
+  rcases hmem with rfl | rfl | rfl | rfl | rfl | rfl | rfl | rfl | rfl | rfl | rfl | rfl | rfl | rfl | rfl | rfl | rfl | rfl | rfl | rfl | rfl | rfl | rfl | rfl | rfl | rfl | rfl
+  all_goals (simp only [Option.some.injEq] at hp; subst hp)
+  · -- handler 0
+    obtain ⟨hs', hg⟩ := shape_alts _ _ _ _ hnl hf
+    have hop : g ∈ ops := by
+      simp only [List.mem_cons, List.not_mem_nil, or_false] at hg
+      rcases hg with h | h | h | h | h | h <;> simp [ops, h]
+    exact Or.inl ⟨g, hop, Or.inl (by rw [hs']; rfl)⟩
+  · -- handler 1
+    obtain ⟨hs', hg⟩ := shape_alts _ _ _ _ hnl hf
+    have hop : g ∈ ops := by
+      simp only [List.mem_cons, List.not_mem_nil, or_false] at hg
+      rcases hg with h | h | h | h | h | h <;> simp [ops, h]
+    exact Or.inl ⟨g, hop, Or.inr <| Or.inl (by rw [hs']; rfl)⟩
+  · -- handler 2
+    obtain ⟨hs', hg⟩ := shape_alts _ _ _ _ hnl hf
+    have hop : g ∈ ops := by
+      simp only [List.mem_cons, List.not_mem_nil, or_false] at hg
+      rcases hg with h | h | h | h | h | h <;> simp [ops, h]
+    exact Or.inl ⟨g, hop, Or.inr <| Or.inr <| Or.inl (by rw [hs']; rfl)⟩
+  · -- handler 3
+    obtain ⟨hs', _⟩ := shape_lit _ _ _ hnl hf
+    exact Or.inr (Or.inl (by rw [hs']; decide))
+  · -- handler 4
+    obtain ⟨hs', _⟩ := shape_lit _ _ _ hnl hf
+    exact Or.inr (Or.inl (by rw [hs']; decide))
+  · -- handler 5
+    obtain ⟨hs', hg⟩ := shape_alts _ _ _ _ hnl hf
+    have hop : g ∈ ops := by
+      simp only [List.mem_cons, List.not_mem_nil, or_false] at hg
+      rcases hg with h | h | h | h | h | h <;> simp [ops, h]
+    exact Or.inl ⟨g, hop, Or.inr <| Or.inr <| Or.inr <| Or.inl (by rw [hs']; rfl)⟩
+  · -- handler 6
+    obtain ⟨hs', hg⟩ := shape_alts _ _ _ _ hnl hf
+    have hop : g ∈ ops := by
+      simp only [List.mem_cons, List.not_mem_nil, or_false] at hg
+      rcases hg with h | h | h | h | h | h <;> simp [ops, h]
+    exact Or.inl ⟨g, hop, Or.inr <| Or.inr <| Or.inr <| Or.inr (by rw [hs']; rfl)⟩
+  · -- handler 7
+    obtain ⟨hs', _⟩ := shape_lit _ _ _ hnl hf
+    exact Or.inr (Or.inl (by rw [hs']; decide))
+  · -- handler 8
+    obtain ⟨hs', _⟩ := shape_lit _ _ _ hnl hf
+    exact Or.inr (Or.inl (by rw [hs']; decide))
+  · -- handler 9
+    obtain ⟨hs', _⟩ := shape_lit _ _ _ hnl hf
+    exact Or.inr (Or.inl (by rw [hs']; decide))
+  · -- handler 10
+    obtain ⟨hs', _⟩ := shape_lit _ _ _ hnl hf
+    exact Or.inr (Or.inl (by rw [hs']; decide))
+  · -- handler 11
+    obtain ⟨p, _, hs', hlen, hall⟩ := shape_two _ _ _ _ _ _ _ hnl hf
+    have hp := chars_rep 'I' p hall
+    refine Or.inr (Or.inr (Or.inl ⟨p.length + 1, by omega, Or.inl ?_⟩))
+    rw [hs', hp]
+    simp [dipName, List.replicate_succ]
+  · -- handler 12
+    obtain ⟨p, _, hs', hlen, hall⟩ := shape_two _ _ _ _ _ _ _ hnl hf
+    have hp := chars_rep 'U' p hall
+    refine Or.inr (Or.inr (Or.inl ⟨p.length + 1, by omega, Or.inr ?_⟩))
+    rw [hs', hp]
+    simp [dupName, List.replicate_succ]
+  · -- handler 13
+    obtain ⟨hg, p, hs', hlen, _⟩ := shape_many_whole _ _ _ _ _ _ hnl hf
+    rw [hg] at hrun
+    obtain ⟨px, hpx⟩ := pxr_run_inv _ _ _ _ _ hrun
+    obtain ⟨l, r, hname⟩ := buildPxrTree_sound _ _ _ hpx
+    refine Or.inr (Or.inr (Or.inr (Or.inl ⟨.node l r, ?_, Or.inl hname⟩)))
+    have h1 : s.length = 2 * (PairTree.node l r).leaves := by
+      rw [hname, pairName, List.length_append, List.length_singleton]; exact body_length _ _
+    have h2 : s.length = p.length + 2 := by rw [hs']; simp; omega
+    omega
+  · -- handler 14
+    obtain ⟨p, hg, hs', hlen, _⟩ := shape_three _ _ _ _ _ _ _ hnl hf
+    obtain ⟨px, hpx⟩ := unpxr_run_inv _ _ _ _ _ hrun
+    obtain ⟨l, r, hname⟩ := buildPxrTree_sound _ _ _ hpx
+    refine Or.inr (Or.inr (Or.inr (Or.inl ⟨.node l r, ?_, Or.inr (by rw [hs', hname])⟩)))
+    have h1 : g.length = 2 * (PairTree.node l r).leaves := by
+      rw [hname, pairName, List.length_append, List.length_singleton]; exact body_length _ _
+    have h2 : g.length = p.length + 2 := by rw [hg]; simp; omega
+    omega
+  · -- handler 15
+    obtain ⟨hs', hlen, hall⟩ := shape_many _ _ _ _ _ _ hnl hf
+    obtain ⟨q, hq, hql⟩ := chars_path g hall
+    refine Or.inr (Or.inr (Or.inr (Or.inr (Or.inl ⟨.A :: q, by simp; omega, ?_⟩))))
+    rw [hs', hq]
+    simp [cadrName, pathChars, Dir.char]
+  · -- handler 16
+    obtain ⟨hs', hlen, hall⟩ := shape_many _ _ _ _ _ _ hnl hf
+    obtain ⟨q, hq, hql⟩ := chars_path g hall
+    refine Or.inr (Or.inr (Or.inr (Or.inr (Or.inl ⟨.D :: q, by simp; omega, ?_⟩))))
+    rw [hs', hq]
+    simp [cadrName, pathChars, Dir.char]
+  · -- handler 17
+    obtain ⟨hs', _⟩ := shape_lit _ _ _ hnl hf
+    exact Or.inr (Or.inl (by rw [hs']; decide))
+  · -- handler 18
+    obtain ⟨hs', _⟩ := shape_lit _ _ _ hnl hf
+    exact Or.inr (Or.inl (by rw [hs']; decide))
+  · -- handler 19
+    obtain ⟨hs', _⟩ := shape_lit _ _ _ hnl hf
+    exact Or.inr (Or.inr (Or.inr (Or.inr (Or.inr ⟨[.A], by simp, Or.inl (by rw [hs']; rfl)⟩))))
+  · -- handler 20
+    obtain ⟨hs', _⟩ := shape_lit _ _ _ hnl hf
+    exact Or.inr (Or.inr (Or.inr (Or.inr (Or.inr ⟨[.D], by simp, Or.inl (by rw [hs']; rfl)⟩))))
+  · -- handler 21
+    obtain ⟨hs', hlen, hall⟩ := shape_many _ _ _ _ _ _ hnl hf
+    obtain ⟨q, hq, hql⟩ := chars_path g hall
+    refine Or.inr (Or.inr (Or.inr (Or.inr (Or.inr ⟨.A :: q, by simp, Or.inl ?_⟩))))
+    rw [hs', hq]
+    simp [setName, pathChars, Dir.char]
+  · -- handler 22
+    obtain ⟨hs', hlen, hall⟩ := shape_many _ _ _ _ _ _ hnl hf
+    obtain ⟨q, hq, hql⟩ := chars_path g hall
+    refine Or.inr (Or.inr (Or.inr (Or.inr (Or.inr ⟨.D :: q, by simp, Or.inl ?_⟩))))
+    rw [hs', hq]
+    simp [setName, pathChars, Dir.char]
+  · -- handler 23
+    obtain ⟨hs', _⟩ := shape_lit _ _ _ hnl hf
+    exact Or.inr (Or.inr (Or.inr (Or.inr (Or.inr ⟨[.A], by simp, Or.inr (by rw [hs']; rfl)⟩))))
+  · -- handler 24
+    obtain ⟨hs', _⟩ := shape_lit _ _ _ hnl hf
+    exact Or.inr (Or.inr (Or.inr (Or.inr (Or.inr ⟨[.D], by simp, Or.inr (by rw [hs']; rfl)⟩))))
+  · -- handler 25
+    obtain ⟨hs', hlen, hall⟩ := shape_many _ _ _ _ _ _ hnl hf
+    obtain ⟨q, hq, hql⟩ := chars_path g hall
+    refine Or.inr (Or.inr (Or.inr (Or.inr (Or.inr ⟨.A :: q, by simp, Or.inr ?_⟩))))
+    rw [hs', hq]
+    simp [mapName, pathChars, Dir.char]
+  · -- handler 26
+    obtain ⟨hs', hlen, hall⟩ := shape_many _ _ _ _ _ _ hnl hf
+    obtain ⟨q, hq, hql⟩ := chars_path g hall
+    refine Or.inr (Or.inr (Or.inr (Or.inr (Or.inr ⟨.D :: q, by simp, Or.inr ?_⟩))))
+    rw [hs', hq]
+    simp [mapName, pathChars, Dir.char]
+
+theorem accepts_of (s : List Char) (ht : tags.contains s = false) (k : Nat) (hk : k ∈ [0, 1, 2]) (m : Mich)
+    (h : expandMacro s [] (List.replicate k (.seq [])) = .ok m) : acceptsName s = true := by
+  unfold acceptsName
+  rw [primTags_eq]
+  simp only [ht, Bool.not_false, Bool.true_and, List.any_eq_true]
+  exact ⟨k, hk, by rw [h]⟩
+
+/-- the dispatch accepts exactly the names of the reference macro set: for every string without a newline,
+`expand_macro` accepts it as a macro (it is not a primitive, and the expansion succeeds without annotations for 0, 1 or
+2 code arguments) iff it is a name of the reference grammar — `CMP/IF/IFCMP/ASSERT_/ASSERT_CMP{op}`, the fixed names,
+`DII+P`, `DUU+P`, a well-formed `P…R`/`UNP…R` tree with ≥ 3 leaves, `C[AD]{2,}R`, `SET_C[AD]+R`, `MAP_C[AD]+R`.
+(Python's `$` also matches before one final newline; the lexer never produces such a name.) -/
+theorem macro_name_grammar (s : List Char) (hnl : '\n' ∉ s) : acceptsName s = true ↔ MacroName s := by
+  constructor
+  · intro h
+    unfold acceptsName at h
+    rw [primTags_eq] at h
+    simp only [Bool.and_eq_true, Bool.not_eq_true', List.any_eq_true] at h
+    obtain ⟨ht, k, _, hk⟩ := h
+    cases he : expandMacro s [] (List.replicate k (.seq [])) with
+    | error e => rw [he] at hk; cases hk
+    | ok m => exact macroName_of_accepts s hnl ht _ m he
+  · intro h
+    rcases h with ⟨op, hop, h⟩ | h | ⟨n, hn, h⟩ | ⟨t, h3, h⟩ | ⟨p, hp, h⟩ | ⟨p, hp, h⟩
+    · simp only [ops, List.mem_cons, List.not_mem_nil, or_false] at hop
+      rcases h with h | h | h | h | h <;> subst h <;>
+        rcases hop with rfl | rfl | rfl | rfl | rfl | rfl <;> rfl
+    · simp only [fixedNames, List.mem_cons, List.not_mem_nil, or_false] at h
+      rcases h with rfl | rfl | rfl | rfl | rfl | rfl | rfl | rfl <;> rfl
+    · rcases h with rfl | rfl
+      · obtain ⟨m, hm, _⟩ := dixp n hn (.seq []) (fun _ _ _ _ => .err)
+        exact accepts_of _ (not_tag_of_dispatch (dispatch_dip n hn)) 1 (by simp) m hm
+      · obtain ⟨m, hm, _⟩ := duxp n hn [] (fun _ _ _ _ => .err)
+        exact accepts_of _ (not_tag_of_dispatch (dispatch_dup n hn)) 0 (by simp) m hm
+    · cases t with
+      | leaf => simp [PairTree.leaves] at h3
+      | node l r =>
+        rcases h with rfl | rfl
+        · obtain ⟨m, hm, _⟩ := pair_tree l r h3 [] (fun _ _ _ _ => .err)
+          exact accepts_of _ (not_tag_of_dispatch (dispatch_pair l r h3)) 0 (by simp) m hm
+        · obtain ⟨m, hm, _⟩ := unpair_tree l r h3 [] (fun _ _ _ _ => .err)
+          exact accepts_of _ (not_tag_of_dispatch (dispatch_unpair l r h3)) 0 (by simp) m hm
+    · subst h
+      obtain ⟨m, hm, _⟩ := cxr p hp [] (fun _ _ _ _ => .err)
+      match p, hp with
+      | .A :: e :: q, _ => exact accepts_of _ (not_tag_of_dispatch (dispatch_cadr_A (e :: q) (by simp))) 0 (by simp) m hm
+      | .D :: e :: q, _ => exact accepts_of _ (not_tag_of_dispatch (dispatch_cadr_D (e :: q) (by simp))) 0 (by simp) m hm
+    · rcases h with rfl | rfl
+      · obtain ⟨m, hm, _⟩ := set_cxr p hp [] (fun _ _ _ _ => .err)
+        match p, hp with
+        | [.A], _ => exact accepts_of _ (not_tag_of_dispatch dispatch_SET_CAR) 0 (by simp) m hm
+        | [.D], _ => exact accepts_of _ (not_tag_of_dispatch dispatch_SET_CDR) 0 (by simp) m hm
+        | .A :: e :: q, _ => exact accepts_of _ (not_tag_of_dispatch (dispatch_set_A (e :: q) (by simp))) 0 (by simp) m hm
+        | .D :: e :: q, _ => exact accepts_of _ (not_tag_of_dispatch (dispatch_set_D (e :: q) (by simp))) 0 (by simp) m hm
+      · obtain ⟨m, hm, _⟩ := map_cxr p hp [] (by simp [fieldAnnots]) (.seq []) (fun _ _ _ _ => .err)
+        match p, hp with
+        | [.A], _ => exact accepts_of _ (not_tag_of_dispatch dispatch_MAP_CAR) 1 (by simp) m hm
+        | [.D], _ => exact accepts_of _ (not_tag_of_dispatch dispatch_MAP_CDR) 1 (by simp) m hm
+        | .A :: e :: q, _ => exact accepts_of _ (not_tag_of_dispatch (dispatch_map_A (e :: q) (by simp))) 1 (by simp) m hm
+        | .D :: e :: q, _ => exact accepts_of _ (not_tag_of_dispatch (dispatch_map_D (e :: q) (by simp))) 1 (by simp) m hm
+
+/-- in particular the ill-formed tree names the pinned code expanded to a bare `PAIR` are not accepted -/
+example : acceptsName "PAAIR".toList = false := by rfl
+example : acceptsName "PAPAIR".toList = true := by rfl
+example : ¬ MacroName "PAIAIR".toList := by
+  rw [← macro_name_grammar _ (by decide)]
+  decide
 
 end C19
